@@ -210,12 +210,13 @@ PROPS = {
                         "hunsigned (C11_want_signed_means_refused): the XML-DSig validator rejects a document without signature (goxmldsig; sampled)"],
     },
     "C09": {
-        "modules": ["SamlModel.Props.C09", "SamlModel.Props.HandlerGen", "SamlModel.Props.SendBack", "SamlModel.Props.LogoutProps", "SamlModel.Props.AttrQueryProps", "SamlModel.Props.SsoProps", "SamlModel.Props.Stateless"],
-        "translated": ["certificateCheckNecessary", "checkCertificate", "equalCertificateText", "checkRequestRequiredContent", "verifyRequestDestinationOfAuthRequest",
+        "modules": ["SamlModel.Props.C09", "SamlModel.Props.HandlerGen", "SamlModel.Props.SendBack", "SamlModel.Props.LogoutProps", "SamlModel.Props.AttrQueryProps", "SamlModel.Props.SsoProps", "SamlModel.Props.NewSpGen", "SamlModel.Props.Stateless"],
+        "translated": ["NewServiceProvider", "getSigningCertsFromMetadata", "certificateCheckNecessary", "checkCertificate", "equalCertificateText", "checkRequestRequiredContent", "verifyRequestDestinationOfAuthRequest",
                        "verifyRequestDestinationOfAttrQuery", "GetCertsFromKeyDescriptors", "getResponseCert", "GetAcsUrlAndBindingForResponse",
                        "signaturePostProvided", "signatureRedirectVerificationNecessary", "signaturePostVerificationNecessary", "verifyRedirectSignature", "verifyPostSignature"],
         "trusted_base": COMMON_TRUST + SSO_TRUST + CB_TRUST + SLO_TRUST + AQ_TRUST + [
             "go2lean's panic guards: every pointer dereference / nil-able selector of the translated Go code is emitted as an explicit `if <nil condition> then .panic`; the guard derivation itself is validated by the differential fn/handler ops (model and implementation must agree on panic vs. no panic)",
+            "NewServiceProvider / getSigningCertsFromMetadata are translated (standalone): NewSpGen.newServiceProvider_no_panic (for every metadata document and every answer of ParseMetadataXmlIntoStruct / ParseCertificates that honours their contract - no error => a document, no nil certificate - the constructor returns and does not panic) and newServiceProvider_wf (what it hands out carries metadata with an SPSSODescriptor: the SpWF the handler theorems assume)",
             "no theorem about panics inside encoding/xml, etree, goxmldsig, compress/flate, html/template, crypto: they are oracles in the model and are exercised by the structural-edit and byte-mutation generators",
         ],
         "assumptions": ["SpWF: a registered service provider has metadata with an SPSSODescriptor (NewServiceProvider refuses others); storage returns non-nil objects with nil errors"],
